@@ -377,6 +377,17 @@ Section Engine.
     upd_node j (fun nd => nd <| n_insvc := n_insvc nd + 1 |>) ;;;
     reset_class_change j i ;;;
     set_next_end j sid (Some (t + st)).
+  (* preempt(): the pre-empting customer takes the victim's server; give_individual_a_service_time (it may itself have been pre-empted
+     earlier and carry a resume / restart marker); number_in_service is not touched *)
+  Definition start_preemptor (j i sid : Z) : M unit :=
+    attach_server j sid i ;;;
+    t <- tnow ;;
+    upd_ind i (fun x => x <| i_sst := Some t |>) ;;;
+    give_individual_a_service_time i ;;;
+    x <- get_ind i ;; st <- stime_num x ;;
+    put_ind (x <| i_send := Some (t + st) |>) ;;;
+    reset_class_change j i ;;;
+    set_next_end j sid (Some (t + st)).
   Definition begin_interrupted_individuals_service (j sid : Z) : M unit :=
     nd <- get_node j ;;
     i <- lift E_IntRemove (hd_error (n_interrupted nd)) ;;
@@ -544,7 +555,7 @@ Section Engine.
          detatch_server j sid v ;;;
          decide_class_change j v) ;;;
       sid <- lift E_NoServer (i_server vx) ;;
-      start_fresh j i (Some sid) false
+      start_preemptor j i sid
     end.
 
   Definition fuel_of (s : sim) : nat := (200 + 4 * length (inds s) + 2 * length (concat (map (fun nd => n_bq nd) (nodes s))))%nat.
